@@ -34,7 +34,9 @@ import (
 	"github.com/AdguardTeam/AdGuardDNS/internal/dnsmsg"
 	"github.com/AdguardTeam/AdGuardDNS/internal/filter"
 	"github.com/AdguardTeam/AdGuardDNS/internal/geoip"
+	"github.com/AdguardTeam/AdGuardDNS/internal/profiledb/internal"
 	"github.com/c2h5oh/datasize"
+	"github.com/miekg/dns"
 )
 
 type c14Step struct {
@@ -373,14 +375,17 @@ func (b *c14Backend) Profiles(_ context.Context, req *StorageProfilesRequest) (*
 	b.full = full
 	b.syncs++
 	resp := &StorageProfilesResponse{SyncTime: VerifNow().UTC()}
+	pristine := &StorageProfilesResponse{SyncTime: resp.SyncTime}
 	for _, p := range c14Profs {
 		if !full && !b.dirty[p] {
 			continue
 		}
 		resp.Profiles = append(resp.Profiles, b.buildProfile(p))
+		pristine.Profiles = append(pristine.Profiles, b.buildProfile(p))
 		for _, d := range c14Devs {
 			if b.profDevs[p][d] {
 				resp.Devices = append(resp.Devices, b.buildDevice(d, b.salt[p]))
+				pristine.Devices = append(pristine.Devices, b.buildDevice(d, b.salt[p]))
 			}
 		}
 	}
@@ -388,7 +393,9 @@ func (b *c14Backend) Profiles(_ context.Context, req *StorageProfilesRequest) (*
 	b.rng.Shuffle(len(resp.Profiles), func(i, j int) { resp.Profiles[i], resp.Profiles[j] = resp.Profiles[j], resp.Profiles[i] })
 	b.rng.Shuffle(len(resp.Devices), func(i, j int) { resp.Devices[i], resp.Devices[j] = resp.Devices[j], resp.Devices[i] })
 	b.dirty = map[string]bool{}
-	b.lastResp = resp
+	// what the database is handed is used by it (and by the queries it serves); the settings that were
+	// sent are kept separately, in objects nobody touches
+	b.lastResp = pristine
 	return resp, nil
 }
 
@@ -433,7 +440,31 @@ func (w *c14World) newDB() {
 	if err != nil {
 		w.t.Fatal(err)
 	}
+	db.cache = &c14UsedCache{FileCacheStorage: db.cache}
 	w.db = db
+}
+
+// c14UsedCache lets a query of every profile be processed in the window
+// between the publication of the new profiles and their being written to the
+// cache file (Refresh stores outside of the maps' lock).
+type c14UsedCache struct {
+	internal.FileCacheStorage
+}
+
+func (c *c14UsedCache) Store(ctx context.Context, fc *internal.FileCache) error {
+	for _, p := range fc.Profiles {
+		c14UseProfile(ctx, p)
+	}
+	return c.FileCacheStorage.Store(ctx, fc)
+}
+
+// c14UseProfile does with a looked-up profile what the processing of a query does.
+func c14UseProfile(ctx context.Context, p *agd.Profile) {
+	req := new(dns.Msg).SetQuestion("block1.test.", dns.TypeA)
+	addr := netip.MustParseAddrPort("198.51.100.7:5353")
+	_ = p.Access.IsBlocked(req, addr, &geoip.Location{ASN: 7, Country: "NL"})
+	_ = p.Ratelimiter.Check(ctx, req, addr.Addr())
+	p.Ratelimiter.CountResponses(ctx, req, addr.Addr())
 }
 
 func c14KindOf(name string, key any) (kind, k string) {
@@ -566,7 +597,9 @@ func (w *c14World) do(s c14Step, ev *c14Event) bool {
 			w.be.dirty[p] = true
 		}
 	case "LookupDev":
-		_, _, _ = w.db.ProfileByDeviceID(ctx, agd.DeviceID(s.D))
+		if p, _, err := w.db.ProfileByDeviceID(ctx, agd.DeviceID(s.D)); err == nil {
+			c14UseProfile(ctx, p)
+		}
 	case "LookupLinked":
 		_, _, _ = w.db.ProfileByLinkedIP(ctx, c14Linked[s.K])
 	case "LookupDed":
